@@ -166,6 +166,16 @@ def run(ctx, rep):
         fn = F.fn(q)
         if fn is not None:
             rep.require("'data" in fn["sig"]["output"], "borrow", q, wh(fn["span"]), "returns &'data", "%s returns %s" % (q, fn["sig"]["output"]))
+    # ---- string-table entries and note names / descriptors: the rules of C15 (get_raw) and C14 (Note::parse_at) decide exactly the
+    # "designated range, never shifted" clause for those two kinds of slice; they are run here as part of this property
+    from . import c14, c15
+    from ..runner import Report
+    for mod, pid, rname, what in ((c15, "C15", "strtab", "string-table entries are the bytes from the given offset up to the first NUL"),
+                                  (c14, "C14", "note", "note name / descriptor are [12, 12+namesz) and [pad(name end), +descsz) of the note")):
+        sub = Report(pid)
+        mod.run(ctx, sub)
+        bad = [v for v in sub.violations if v.rule == rname]
+        rep.require(not bad, "sub-slices", "%s rule of %s" % (rname, pid), "src/string_table.rs" if pid == "C15" else "src/note.rs", what,
+                    "%s: %s" % (what, "; ".join("%s: %s" % (v.key, v.msg[:200]) for v in bad[:3])))
     rep.trusted_base += ["C06: no allocation, hence a &'data [u8] can only be a sub-slice of the input or a 'static constant",
-                        "value-preservation of try_into / checked_add on success; semantics of <[u8]>::get",
-                        "string-table entries and note name/descriptor ranges are covered by C15 / C14"]
+                        "value-preservation of try_into / checked_add on success; semantics of <[u8]>::get"]
